@@ -103,7 +103,7 @@ func Graph(r *rand.Rand, s *model.Schema, o GraphOpts) *model.Graph {
 			if f.Echo {
 				continue
 			}
-			if f.Name == "self" && n.Type == s.Query {
+			if (f.Name == "self" || f.Name == "selfReq") && n.Type == s.Query {
 				n.F[f.Name] = n
 				continue
 			}
